@@ -356,14 +356,14 @@ func idlFieldClasses(m *idlModel) map[string]*genDyn {
 						var first, all genCharset
 						okAll := false
 						for _, cs := range compiledPatterns(m.a.p, callee) {
-							if k, isK := cs.Common.Args[0].(*ssa.Const); isK {
-								var pat string
-								fmt.Sscanf(constTerm(k), "const:%q", &pat)
-								if fs, as, ok := regexCharsets(pat); ok {
-									okAll = true
-									for i := range first {
-										first[i] = first[i] || fs[i]
-										all[i] = all[i] || as[i]
+							if pats, isK := patternTexts(cs.Common.Args[0]); isK {
+								for _, pat := range pats {
+									if fs, as, ok := regexCharsets(pat); ok {
+										okAll = true
+										for i := range first {
+											first[i] = first[i] || fs[i]
+											all[i] = all[i] || as[i]
+										}
 									}
 								}
 							}
